@@ -273,4 +273,43 @@ Section Value.
   Definition dvt_dist2 (a b c x1 x2 : vec3) : T := v3norm2 (tri_position_distance a b c x1 x2).
   Definition dvt_lgrad (a b c x1 x2 : vec3) : vec3 := v3scale two (tri_position_distance a b c x2 x1).
   Definition dvt_rgrad (a b c x1 x2 : vec3) : vec3 := dvt_lgrad a b c x2 x1.
+
+  (* ================= colvar::init(): is a variable with these components periodic?  (mirror of the code's loops) =================
+     A component as colvar::init sees it: periodic flag, period, wrapping centre, coefficient (componentCoeff), exponent
+     (componentExp).  The list is in CREATION order (std::map iteration over the component keywords: alphabetical by keyword,
+     config order within a keyword), see sc_rank / sum_creation_order. *)
+  Record scomp := { sc_per : bool; sc_P : T; sc_wc : T; sc_coeff : T; sc_exp : Z; sc_rank : Z }.
+  (* f_cv_linear: every exponent is 1;  f_cv_homogeneous: linear and | |coeff| - 1 | <= 1e-10 for every component *)
+  Definition sum_linear (l : list scomp) : bool := forallb (fun k => Z.eqb (sc_exp k) 1) l.
+  Definition tol10 : T := one / nofZ O 10000000000.
+  Definition sum_homogeneous (l : list scomp) : bool :=
+    sum_linear l && forallb (fun k => negb (nltb O tol10 (nabs O (nabs O (sc_coeff k) - one)))) l.
+  (* the loop over components 1.. : a component that is not periodic or whose period differs from `period` clears the flag and
+     resets `period` to 0 (so that later components are compared with 0) *)
+  Fixpoint sum_loop (b : bool) (period : T) (l : list scomp) : bool * T :=
+    match l with
+    | [] => (b, period)
+    | k :: r => if negb (sc_per k) || negb (neqb O (sc_P k) period) then sum_loop false zero r else sum_loop b period r
+    end.
+  (* Some (period, wrapping centre) when the variable is flagged periodic (f_cv_periodic), None otherwise *)
+  Definition sum_periodic (l : list scomp) : option (T * T) :=
+    match l with
+    | [] => None
+    | k0 :: r =>
+      if sum_homogeneous l && sc_per k0 then
+        let '(b, P) := sum_loop true (sc_P k0) r in if b then Some (P, sc_wc k0) else None
+      else None
+    end.
+  (* the metric and wrap of a variable made of scalar components (after the repair of the dispatch: the first component's
+     periodic functions are used only when the variable itself is periodic) *)
+  Definition sum_kind (l : list scomp) : comp_kind :=
+    match sum_periodic l with Some (P, c) => KPeriodic P c | None => KScalar end.
+  (* creation order: stable insertion sort by keyword rank *)
+  Fixpoint sc_insert (k : scomp) (l : list scomp) : list scomp :=
+    match l with
+    | [] => [k]
+    | h :: r => if Z.leb (sc_rank k) (sc_rank h) then k :: l else h :: sc_insert k r
+    end.
+  Fixpoint sum_creation_order (l : list scomp) : list scomp :=
+    match l with [] => [] | k :: r => sc_insert k (sum_creation_order r) end.
 End Value.
